@@ -55,7 +55,7 @@ def build_kani(extra_generated=""):
             return dst, 0.0, "cached"
         if os.path.exists(stamp):
             os.remove(stamp)
-        rc, out, dt, to = run_cmd(["cargo", "kani", "--only-codegen"], dst, 1800)
+        rc, out, dt, to = run_cmd(["cargo", "kani", "--only-codegen", "-Z", "stubbing"], dst, 1800)
         if rc != 0:
             errs = "\n".join(l for l in out.splitlines() if l.startswith("error") or "-->" in l)[:4000]
             raise BuildError("cargo kani --only-codegen failed (rc=%s)\n%s\n%s" % (rc, errs, out[-3000:]))
@@ -122,7 +122,7 @@ def parse_kani_output(out):
 
 def run_harness(dst, mod, name, timeout, mem_gb=16, solver=None):
     cmd = ["cargo", "kani", "--harness", f"verif::{mod}::{name}::k", "--exact",
-           "-Z", "concrete-playback", "--concrete-playback=print"]
+           "-Z", "concrete-playback", "--concrete-playback=print", "-Z", "stubbing"]
     if solver:
         cmd += ["--solver", solver]
     rc, out, dt, to = run_cmd(cmd, dst, timeout, mem_gb)
